@@ -425,3 +425,194 @@ Proof.
   apply (marg_schedule_invariant n (balance_spans (zlen px) chunk) fs px); auto.
   destruct chunk as [c|]; [now apply spans_exact_cover | apply spans_none_cover].
 Qed.
+
+(** * 4. The sparse marginal is the row sum of the dense symmetric matrix, diagonal once (C10.1 / C11.3) *)
+Lemma sumQ_app : forall l1 l2, sumQ (l1 ++ l2) == sumQ l1 + sumQ l2.
+Proof. induction l1 as [|x l1 IH]; intros; simpl; [ring | rewrite IH; ring]. Qed.
+
+Lemma sumQ_ext {B} : forall (L : list B) f g, (forall j, In j L -> f j == g j) -> sumQ (map f L) == sumQ (map g L).
+Proof.
+  induction L as [|x L IH]; intros f g H; simpl; [reflexivity|].
+  rewrite (H x) by (now left). rewrite (IH f g); [reflexivity|]. intros; apply H; now right.
+Qed.
+
+Lemma sumQ_plus {B} : forall (L : list B) f g, sumQ (map (fun j => f j + g j) L) == sumQ (map f L) + sumQ (map g L).
+Proof. induction L as [|x L IH]; intros; simpl; [ring | rewrite IH; ring]. Qed.
+
+Lemma sumQ_scal {B} : forall (L : list B) c f, sumQ (map (fun j => c * f j) L) == c * sumQ (map f L).
+Proof. induction L as [|x L IH]; intros; simpl; [ring | rewrite IH; ring]. Qed.
+
+Lemma sumQ_zero {B} : forall (L : list B), sumQ (map (fun _ => 0) L) == 0.
+Proof. induction L as [|x L IH]; simpl; [reflexivity | rewrite IH; ring]. Qed.
+
+Lemma sumQ_ind_out : forall (L : list Z) k g, ~ In k L -> sumQ (map (fun j => if (j =? k)%Z then g j else 0) L) == 0.
+Proof.
+  induction L as [|x L IH]; intros k g H; simpl; [reflexivity|].
+  destruct (Z.eqb_spec x k) as [->|Hne]; [exfalso; apply H; now left|].
+  rewrite IH; [ring|]. intro; apply H; now right.
+Qed.
+
+Lemma sumQ_ind_in : forall (L : list Z) k g, NoDup L -> In k L ->
+  sumQ (map (fun j => if (j =? k)%Z then g j else 0) L) == g k.
+Proof.
+  induction L as [|x L IH]; intros k g Hnd Hin; simpl; [contradiction|].
+  inversion Hnd as [|? ? Hx HL]; subst.
+  destruct (Z.eqb_spec x k) as [->|Hne].
+  - rewrite sumQ_ind_out by assumption. ring.
+  - destruct Hin as [->|Hin]; [congruence|]. rewrite IH by assumption. ring.
+Qed.
+
+Lemma in_zrange : forall n k, In k (zrange 0 n) <-> (0 <= k < Z.of_nat n)%Z.
+Proof.
+  intros n k. unfold zrange. rewrite in_map_iff. split.
+  - intros [x [<- Hx]]. apply in_seq in Hx. lia.
+  - intros Hk. exists (Z.to_nat k). split; [lia|]. apply in_seq. lia.
+Qed.
+
+Lemma nodup_zrange : forall n, NoDup (zrange 0 n).
+Proof.
+  intros n. unfold zrange. apply FinFun.Injective_map_NoDup; [|apply seq_NoDup].
+  intros a b H. lia.
+Qed.
+
+Lemma sumQ_single : forall n k g, (0 <= k < Z.of_nat n)%Z ->
+  sumQ (map (fun j => if (j =? k)%Z then g j else 0) (zrange 0 n)) == g k.
+Proof. intros. apply sumQ_ind_in; [apply nodup_zrange | now apply in_zrange]. Qed.
+
+Definition ind (w : wpx) (i j : Z) : Q :=
+  if (b1 w =? Z.min i j)%Z && (b2 w =? Z.max i j)%Z then dat w else 0.
+
+Lemma dense_cons : forall w l i j, dense (w :: l) i j = ind w i j + dense l i j.
+Proof. reflexivity. Qed.
+
+Lemma f_times_parts : forall b w, b1 (f_times b w) = b1 w /\ b2 (f_times b w) = b2 w /\
+  dat (f_times b w) = qnth b (b1 w) * qnth b (b2 w) * dat w.
+Proof. intros. repeat split. Qed.
+
+(** one pixel: its contribution to marginal i = b_i * sum_j [its dense symmetric entry (i,j)] * b_j *)
+Lemma single_rowsum : forall n b w i,
+  (b1 w <= b2 w)%Z -> (0 <= b1 w)%Z -> (b2 w < Z.of_nat n)%Z -> (0 <= i < Z.of_nat n)%Z ->
+  contrib i (f_times b w) == qnth b i * sumQ (map (fun j => ind w i j * qnth b j) (zrange 0 n)).
+Proof.
+  intros n b w i Hu Hp Hq Hi. unfold contrib.
+  destruct (f_times_parts b w) as [-> [-> ->]].
+  set (p := b1 w) in *. set (q := b2 w) in *. set (x := dat w).
+  destruct (Z.eqb_spec p i) as [Hpi|Hpi].
+  - (* i = p: the only partner is j = q *)
+    rewrite (sumQ_ext _ _ (fun j => if (j =? q)%Z then x * qnth b j else 0)).
+    + rewrite (sumQ_single n q (fun j => x * qnth b j)) by lia.
+      destruct (Z.eqb_spec q i), (Z.eqb_spec p q); simpl; subst; try lia; ring.
+    + intros j Hj. apply in_zrange in Hj. unfold ind. fold p q x.
+      destruct (Z.eqb_spec j q), (Z.eqb_spec p (Z.min i j)), (Z.eqb_spec q (Z.max i j)); simpl; try ring; lia.
+  - destruct (Z.eqb_spec q i) as [Hqi|Hqi].
+    + (* i = q <> p: the only partner is j = p *)
+      rewrite (sumQ_ext _ _ (fun j => if (j =? p)%Z then x * qnth b j else 0)).
+      * rewrite (sumQ_single n p (fun j => x * qnth b j)) by lia.
+        destruct (Z.eqb_spec p q); simpl; subst; try lia; ring.
+      * intros j Hj. apply in_zrange in Hj. unfold ind. fold p q x.
+        destruct (Z.eqb_spec j p), (Z.eqb_spec p (Z.min i j)), (Z.eqb_spec q (Z.max i j)); simpl; try ring; lia.
+    + rewrite (sumQ_ext _ _ (fun _ => 0)).
+      * rewrite sumQ_zero. simpl. ring.
+      * intros j Hj. unfold ind. fold p q x.
+        destruct (Z.eqb_spec p (Z.min i j)), (Z.eqb_spec q (Z.max i j)); simpl; try ring; lia.
+Qed.
+
+Definition UpperIn (n : nat) (l : list wpx) : Prop :=
+  Forall (fun w => (b1 w <= b2 w)%Z /\ (0 <= b1 w)%Z /\ (b2 w < Z.of_nat n)%Z) l.
+
+Theorem marg_is_rowsum : forall n b (l : list wpx) i,
+  UpperIn n l -> (0 <= i < Z.of_nat n)%Z ->
+  marg_at i (map (f_times b) l) == rowsum (dense l) n b i.
+Proof.
+  intros n b l i Hl Hi. rewrite marg_at_sum. unfold rowsum.
+  induction Hl as [|w l [Hu [Hp Hq]] Hl IH]; simpl.
+  - rewrite (sumQ_ext _ _ (fun _ => 0)); [rewrite sumQ_zero; ring|]. intros; unfold dense; simpl; ring.
+  - rewrite IH. rewrite (single_rowsum n b w i Hu Hp Hq Hi).
+    rewrite (sumQ_ext (zrange 0 n) (fun j => dense (w :: l) i j * qnth b j)
+               (fun j => ind w i j * qnth b j + dense l i j * qnth b j)).
+    + rewrite sumQ_plus. ring.
+    + intros j _. rewrite dense_cons. ring.
+Qed.
+
+Lemma dense_sym : forall l i j, dense l i j = dense l j i.
+Proof. intros. unfold dense. now rewrite Z.min_comm, Z.max_comm. Qed.
+
+Lemma sumQ_nonneg {B} : forall (L : list B) f, (forall j, In j L -> 0 <= f j) -> 0 <= sumQ (map f L).
+Proof.
+  induction L as [|x L IH]; intros f H; simpl; [apply Qle_refl|].
+  assert (0 <= f x) by (apply H; now left).
+  assert (0 <= sumQ (map f L)) by (apply IH; intros; apply H; now right). lra.
+Qed.
+
+Lemma dense_nonneg : forall l i j, Forall (fun w => 0 <= dat w) l -> 0 <= dense l i j.
+Proof.
+  intros l i j H. unfold dense. apply sumQ_nonneg. intros w Hw.
+  rewrite Forall_forall in H. specialize (H w Hw).
+  destruct (_ && _); [assumption | apply Qle_refl].
+Qed.
+
+(** filters never touch the bin ids of a pixel *)
+Definition keyfix (f : wpx -> wpx) : Prop := forall w, fst (f w) = fst w.
+
+Lemma keyfix_binarize : keyfix f_binarize. Proof. intros w. reflexivity. Qed.
+Lemma keyfix_zero_diags : forall d, keyfix (f_zero_diags d).
+Proof. intros d w. unfold f_zero_diags. now destruct (_ <? _)%Z. Qed.
+Lemma keyfix_zero_trans : forall c, keyfix (f_zero_trans c).
+Proof. intros c w. unfold f_zero_trans. now destruct (_ =? _)%Z. Qed.
+Lemma keyfix_zero_cis : forall c, keyfix (f_zero_cis c).
+Proof. intros c w. unfold f_zero_cis. now destruct (_ =? _)%Z. Qed.
+Lemma keyfix_times : forall v, keyfix (f_times v). Proof. intros v w. reflexivity. Qed.
+
+Lemma keyfix_base_filters : forall o chroms, Forall keyfix (base_filters o chroms).
+Proof.
+  intros o chroms. unfold base_filters. apply Forall_app. split.
+  - destruct (o_cis o); constructor; [apply keyfix_zero_trans | constructor].
+  - destruct (_ =? _)%Z; constructor; [apply keyfix_zero_diags | constructor].
+Qed.
+
+Lemma pipe1_keyfix : forall fs w, Forall keyfix fs -> fst (pipe1 fs w) = fst w.
+Proof.
+  induction fs as [|f fs IH]; intros w H; simpl; [reflexivity|].
+  inversion H; subst. unfold pipe1 in *. simpl. rewrite IH by assumption. auto.
+Qed.
+
+Lemma pipe1_app : forall fs gs w, pipe1 (fs ++ gs) w = pipe1 gs (pipe1 fs w).
+Proof. intros. unfold pipe1. now rewrite fold_left_app. Qed.
+
+(** the filtered, weighted pixels of a table: what the dense matrix F is built from *)
+Definition filtered (fs : list (wpx -> wpx)) (px : list pixel) : list wpx := map (fun p => pipe1 fs (init1 p)) px.
+
+Lemma filtered_upper : forall n fs px, Forall keyfix fs ->
+  upper_b px = true -> inrange_b (Z.of_nat n) px = true -> UpperIn n (filtered fs px).
+Proof.
+  intros n fs px Hk Hu Hr. unfold UpperIn, filtered. rewrite Forall_map. rewrite Forall_forall. intros p Hp.
+  unfold upper_b in Hu. unfold inrange_b in Hr. rewrite forallb_forall in Hu, Hr.
+  specialize (Hu p Hp). specialize (Hr p Hp).
+  unfold b1, b2. rewrite pipe1_keyfix by assumption. unfold init1. simpl.
+  unfold row, col in *. lia.
+Qed.
+
+(** genome-wide sweep of the model: marginal i = row sum i of diag(b) F diag(b), F = dense symmetric
+    completion of the filtered upper-triangular pixels (diagonal once) — for every chunk size *)
+Theorem margf_gw_is_rowsum : forall n chunk fs (px : list pixel) b i,
+  (match chunk with Some c => 1 <= c | None => True end)%Z ->
+  Forall keyfix fs -> upper_b px = true -> inrange_b (Z.of_nat n) px = true ->
+  (0 <= i < Z.of_nat n)%Z ->
+  qnth (margf_gw n (balance_spans (zlen px) chunk) fs px b) i == rowsum (dense (filtered fs px)) n b i.
+Proof.
+  intros n chunk fs px b i Hc Hk Hu Hr Hi. unfold margf_gw.
+  rewrite marg_of_spec by assumption.
+  rewrite <- (marg_is_rowsum n b (filtered fs px) i (filtered_upper n fs px Hk Hu Hr) Hi).
+  rewrite marg_at_sum. unfold filtered. rewrite !map_map.
+  apply sumQ_ext. intros p _. unfold pcontrib. rewrite pipe1_app. reflexivity.
+Qed.
+
+(** the per-chunk pipeline is local: a pure per-pixel map, so the result for a chunk is determined by the
+    chunk alone and splitting a chunk splits the result (no state carried between chunks) *)
+Theorem pipeline_local : forall fs (c1 c2 : list pixel),
+  pipe fs (init (c1 ++ c2)) = pipe fs (init c1) ++ pipe fs (init c2).
+Proof. intros. rewrite !pipe_map, !init_map, !map_app. reflexivity. Qed.
+
+Theorem pipeline_pointwise : forall fs (c : list pixel),
+  pipe fs (init c) = map (fun p => pipe1 fs (init1 p)) c.
+Proof. intros. now rewrite pipe_map, init_map, map_map. Qed.
